@@ -109,7 +109,7 @@ def validate(chk, repo, features=None):
         s["id"] = i + 1
     fn = os.path.join(tlc.WORK, "suite-scn-%d.json" % os.getpid())
     with open(fn, "w") as f:
-        json.dump(scns, f)
+        json.dump(tlc.enc_json(scns), f)
     try:
         res = tlc.run("YP", "YP.cfg", env={"SCN_FILE": fn}, tag="suite-%d" % os.getpid(), timeout=1200)
     finally:
